@@ -102,6 +102,26 @@ def judge(sc, obs, cfg):
     return None
 
 
+def gen_config_interference(rng, sid, B, members):
+    """a DMap B with its own configuration (idle eviction after 250 ms) next to DMaps without one whose names end in B and
+    start with characters of the fragment prefix ("app."+B, "dmap."+B, "mad."+B): B's rule must never be applied to them"""
+    names = ["app." + B, "dmap." + B, "mad." + B, "p" + B]
+    ops = []
+    keys = [dmaplib.hx("i%02d" % i) for i in range(10)]
+    for d in names + [B]:
+        for k in keys:
+            ops.append({"op": "put", "c": rng.choice(["emb@owner", "cc"]), "d": d, "k": k, "v": dmaplib.hx(d[-6:] + "!")})
+    ops.append({"op": "sleep", "ms": 250 + 2 * dmaplib.MARGIN + 80})
+    for _ in range(2):
+        for m in range(members):
+            ops.append({"op": "evict", "m": m})
+    for d in names:
+        for k in keys:
+            ops.append({"op": "get", "c": rng.choice(["emb@owner", "emb@other", "cc"]), "d": d, "k": k})
+        ops.append({"op": "dump", "d": d, "k": keys[0]})
+    return {"id": sid, "ops": ops, "_A": names[0], "_B": B, "_keysB": []}
+
+
 def gen_groups(res):
     cfgs = [{"members": 3, "replicas": 2, "partitions": 7, "table": 1024, "evict_workers": 1},
             {"members": 1, "replicas": 1, "partitions": 7, "table": 1024, "evict_workers": 1},
@@ -117,6 +137,15 @@ def gen_groups(res):
                 scs.append(gen(rng, sid, a, b, rng.randrange(8, 30), cfg["members"]))
                 sid += 1
         groups.append((cfg, scs))
+    # per-DMap configuration must not leak to DMaps with similar names
+    for members in ((1, 3) if res.tier != "quick" else (3,)):
+        scs, dmaps = [], {}
+        for i in range(2 if res.tier == "quick" else 6):
+            B = "c19i%d" % sid
+            dmaps[B] = {"maxidle_ms": 250}
+            scs.append(gen_config_interference(vlib.rng_for(res.seed, PID, "cfg", sid), sid, B, members))
+            sid += 1
+        groups.append(({"members": members, "replicas": min(2, members), "partitions": 7, "table": 4096, "evict_workers": 1, "dmaps": dmaps}, scs))
     return groups
 
 
@@ -125,7 +154,7 @@ def run(res):
         res, PID, gen_groups, judge, shard=4,
         rule="pairs of DMap names incl. the collision families ('ab'+'c' vs 'a'+'bc', A vs 'dmap.'+A, prefix pairs) on clusters of 1-3 members, "
              "R in 1..2: DMap B is filled first, then random operations on A (puts with ttl, deletes, incr, getput, locks, expire, scans, Destroy through "
-             "4 paths, expiry + eviction passes); after EVERY step a key of B is read and all its copies dumped; at the end A is destroyed, read, scanned "
+             "4 paths, expiry + eviction passes); DMaps without configuration named 'app.'+B, 'dmap.'+B, 'mad.'+B next to a DMap B configured with idle eviction; after EVERY step a key of B is read and all its copies dumped; at the end A is destroyed, read, scanned "
              "and written again; predicate = reference semantics per DMap (so B never changes), mirror, scan contents")
 
 
